@@ -20,6 +20,14 @@ class _Return(Exception):
         self.value = value
 
 
+class _Continue(Exception):
+    pass
+
+
+class _Break(Exception):
+    pass
+
+
 PURE_BUILTINS = {'len': len, 'list': list, 'tuple': tuple, 'sorted': sorted, 'zip': lambda *a: list(zip(*a)), 'abs': abs,
                  'enumerate': lambda x, start=0: list(enumerate(x, start)), 'range': lambda *a: list(range(*a)), 'min': min,
                  'max': max, 'sum': sum, 'int': int, 'float': float, 'bool': bool, 'set': set, 'dict': dict, 'reversed': lambda x: list(reversed(x)),
@@ -62,6 +70,10 @@ class Folder:
             t = self.prog.resolve_global(imp[1], imp[2])
             if isinstance(t, ast.AST):
                 return self.ev(t, {})
+            if isinstance(t, tuple) and t and t[0] == 'modvalue':       # a constant of another module of the package
+                fo = Folder(self.prog, t[1])
+                fo.steps = self.steps
+                return fo.ev(t[3], {})
         raise CannotFold('name %s' % e.id)
 
     def e_Tuple(self, e, env):
@@ -185,6 +197,10 @@ class Folder:
         if isinstance(fn, ast.Attribute) and fn.attr in ARRAY_CTORS and isinstance(fn.value, ast.Name) and fn.value.id in ('np', 'numpy') \
                 and args:
             return args[0]
+        if isinstance(fn, ast.Attribute) and fn.attr in ('argmin', 'argmax') and isinstance(fn.value, ast.Name) and fn.value.id in ('np', 'numpy') \
+                and len(args) == 1 and not kwargs and isinstance(args[0], (list, tuple)) and args[0]:
+            # first position of the extreme value (NumPy's tie rule)
+            return list(args[0]).index(min(args[0]) if fn.attr == 'argmin' else max(args[0]))
         if isinstance(fn, ast.Attribute) and fn.attr in ('keys', 'values', 'items', 'get', 'lower', 'upper', 'strip', 'index', 'count'):
             recv = self.ev(fn.value, env)
             if isinstance(recv, (dict, str, list, tuple)):
@@ -237,9 +253,22 @@ class Folder:
             elif isinstance(s, ast.Return):
                 raise _Return(self.ev(s.value, env) if s.value is not None else None)
             elif isinstance(s, ast.For):
+                broke = False
                 for item in self.ev(s.iter, env):
                     self.bind(s.target, item, env)
-                    self.block(s.body, env)
+                    try:
+                        self.block(s.body, env)
+                    except _Continue:
+                        continue
+                    except _Break:
+                        broke = True
+                        break
+                if not broke:
+                    self.block(s.orelse, env)
+            elif isinstance(s, ast.Continue):
+                raise _Continue()
+            elif isinstance(s, ast.Break):
+                raise _Break()
             elif isinstance(s, ast.Expr):
                 c = s.value
                 if isinstance(c, ast.Constant):
